@@ -5,15 +5,28 @@ from harness import wholefile as wf
 CFG = {
     'C05': dict(
         theorems=['Dlis.C05.decode_attr_fidelity', 'Dlis.C05.decodeVal_encVal', 'Dlis.C05.values_fidelity',
+                  'Dlis.C05.assigned_held_exactly', 'Dlis.C05.assigned_held_leafwise', 'Dlis.C05.numeric_value_kept',
+                  'Dlis.C05.int_as_double_exact', 'Dlis.C05.status_value_kept', 'Dlis.C05.dtime_value_kept',
+                  'Dlis.C05.writer_gets_held_values', 'Dlis.C05.unassigned_is_absent',
                   'Dlis.C04.parseEflr_setBody', 'Dlis.Obligations.attrs_eq', 'Dlis.Obligations.enums_eq',
-                  'Dlis.Obligations.sets_eq', 'Dlis.Obligations.genericTypes_eq'],
+                  'Dlis.Obligations.convs_eq', 'Dlis.Obligations.sets_eq', 'Dlis.Obligations.genericTypes_eq'],
         rule='random valid specifications (1..3 logical files, all 21 object types, attribute subsets none/30%/60%/all, '
              'value domains per attribute kind incl. non-finite floats, signed zero, long text, aware/naive/string '
              'date-times, enum members and values, references, multiplicities 0..200, nested lists, units; routes '
              'keyword / dict / AttrSetup) written by the real package; oracle = Lean reader dump vs expectation from '
-             'the specification. Distinct by generated index.',
-        note='state->file is proved (decode_attr_fidelity); user input->state (converters, write-time defaults) is tied '
-             'by the whole-file oracle against an expectation computed from the API arguments and the pinned schema.'),
+             'the specification. Distinct by generated index. Stream `convert`: for every attribute of every object type '
+             '(pinned schema), 1..3 set_attributes calls (plain / dict in both key orders / AttrSetup / units only / '
+             'bad key) with values of every Python kind (bool, ints to 2**1100, floats incl. NaN/inf/-0.0/subnormal, '
+             'numeric / date / enum / non-ASCII / long strings, datetimes naive and aware, items of the right and of '
+             'other types, enum members, None, object(), lists/tuples nested to depth 3), in and outside '
+             'high-compatibility mode: outcome of each call, held value, units, representation code, count and the '
+             'attribute component bytes are compared with the Lean converter model.',
+        note='state->file is proved (decode_attr_fidelity); user input->state is the converter model '
+             '(assigned_held_exactly / assigned_held_leafwise / numeric_value_kept / ...), instantiated from the pinned '
+             'table Standard.convs (Obligations.convs_eq) and compared with the real setters by the convert stream; '
+             'int(str), float(str) and strptime are parameters of the model (trusted: the Python builtins); three '
+             'single-class converters (REPRESENTATION-CODE no_set, ENCRYPTED, FILE-SET-NUMBER) and numpy scalars as '
+             'attribute values are outside the converter model; write-time defaults are tied by the whole-file oracle.'),
     'C03': dict(
         theorems=['Dlis.C03.frame_data_roundtrip', 'Dlis.C03.window_rows', 'Dlis.C03.element_bits',
                   'Dlis.Obligations.dtypeCodes_eq', 'Dlis.Obligations.iflrTypes_eq'],
@@ -56,6 +69,10 @@ def run_prop(prop, tier):
         chk.case('whole-file', nontrivial_key=r.index if r.res['status'] == 'ok' else None, sample=wf.sample_of(r))
     if prop == 'C05':
         wf.eflr_correspondence(runs, model, bres, chk)
+        from harness import convert
+        from harness.common import rng
+        from harness.filegen import ATTRS
+        convert.run_stream(chk, model, bres, rng('C05', 'convert'), 12 if tier == 'quick' else 80, ATTRS)
     else:
         wf.iflr_correspondence(runs, model, bres, chk)
     for r in runs:
